@@ -21,6 +21,7 @@ func init() {
 		&Rule{ID: "EX-SETINCL", Doc: "set inclusion (Contains with a set argument) is 'every right element, examined afresh, has an Equal left element'", Run: ruleEXSetIncl, Min: 3},
 		&Rule{ID: "EX-SETALG", Doc: "set equality is inclusion in both directions, union and intersection add an element only if the result does not hold it yet, and the length of a set is not the length of its representation: no result depends on a repeated element", Run: ruleEXSetAlg, Min: 5},
 		&Rule{ID: "FX-BIND", Doc: "a rule variable is bound only by MatchedVariables.Insert (first binding under 'unbound', otherwise the verdict is Equal with the existing binding); nothing else writes a binding map except Clone and the nil initialisation", Run: ruleFXBind, Min: 3},
+		&Rule{ID: "PR-ARITY", Doc: "per op kind, every way through one step of Expression.Print pops the operator's operands (value 0, unary 1, binary 2: right first, then left), prints that very op on them as (left, right) and pushes the text", Run: rulePRArity, Min: 3},
 		&Rule{ID: "EX-ARITY", Doc: "per op kind, every way through one step of Evaluate pops the operator's operands (value 0, unary 1, binary 2: right first, then left), evaluates that very op on them and pushes its result", Run: ruleEXArity, Min: 3},
 		&Rule{ID: "EX-STACK", Doc: "Evaluate tests every Push/Pop error and succeeds only with exactly one value left", Run: ruleEXStack, Min: 4},
 		&Rule{ID: "FX-EQUAL", Doc: "every Term.Equal is type-strict: the comma-ok of the assertion to the receiver's own type gates any true result", Run: ruleFXEqual, Min: 7},
@@ -246,23 +247,91 @@ func (p *Prog) cutProves(fn *ssa.Function, blk *ssa.BasicBlock, pred func(c *ssa
 			continue
 		}
 		v, t, f := condOf(i)
-		c, ok := v.(*ssa.BinOp)
-		if !ok || t == f {
+		if t == f {
 			continue
 		}
-		// normalise constant on the right
-		cc := *c
-		if _, isC := unwrap(c.X).(*ssa.Const); isC {
-			cc.X, cc.Y = c.Y, c.X
-		}
-		if pred(&cc, true) {
+		if decided(boolAlternatives(v, true, 0), pred) {
 			cut[edge{b, t}] = true
 		}
-		if pred(&cc, false) {
+		if decided(boolAlternatives(v, false, 0), pred) {
 			cut[edge{b, f}] = true
 		}
 	}
 	return !reachAvoidingEdges(fn.Blocks[0], blk, cut)
+}
+
+// decision is one comparison with the truth value it is known to have.
+type decision struct {
+	c   *ssa.BinOp
+	val bool
+}
+
+// boolAlternatives describes what is known when the boolean v has the value val, as a disjunction
+// of conjunctions of comparisons: a comparison is itself; !x swaps the value; the phi that go/ssa
+// builds for a && b / a || b used as a value (e.g. as the case expression of a tagless switch) is
+// true/false through one of its incoming edges - a constant edge stands for the branch decision
+// that selected it, a computed edge for the value computed there. An empty conjunction (nothing
+// known) is returned for anything else, and then no predicate is satisfied by that alternative.
+func boolAlternatives(v ssa.Value, val bool, depth int) [][]decision {
+	unknown := [][]decision{{}}
+	if depth > 6 {
+		return unknown
+	}
+	switch x := v.(type) {
+	case *ssa.BinOp:
+		cc := *x
+		if _, isC := unwrap(x.X).(*ssa.Const); isC {
+			// normalise constant on the right (only for symmetric operators, which is what callers test)
+			if x.Op == token.EQL || x.Op == token.NEQ {
+				cc.X, cc.Y = x.Y, x.X
+			}
+		}
+		return [][]decision{{{&cc, val}}}
+	case *ssa.UnOp:
+		if x.Op == token.NOT {
+			return boolAlternatives(x.X, !val, depth+1)
+		}
+	case *ssa.Phi:
+		var out [][]decision
+		for k, e := range x.Edges {
+			pred := x.Block().Preds[k]
+			if c, isC := e.(*ssa.Const); isC {
+				if c.Value == nil || c.Value.Kind() != constant.Bool {
+					return unknown
+				}
+				if constant.BoolVal(c.Value) != val {
+					continue // this edge cannot give the phi the value val
+				}
+				pi := blockIf(pred)
+				if pi == nil || pred.Succs[0] == pred.Succs[1] {
+					return unknown
+				}
+				out = append(out, boolAlternatives(pi.Cond, pred.Succs[0] == x.Block(), depth+1)...)
+				continue
+			}
+			out = append(out, boolAlternatives(e, val, depth+1)...)
+		}
+		return out
+	}
+	return unknown
+}
+
+// decided: in every alternative some comparison satisfies pred (an impossible value - no
+// alternative at all - is decided trivially: the edge is never taken).
+func decided(alts [][]decision, pred func(c *ssa.BinOp, val bool) bool) bool {
+	for _, conj := range alts {
+		hit := false
+		for _, d := range conj {
+			if pred(d.c, d.val) {
+				hit = true
+				break
+			}
+		}
+		if !hit {
+			return false
+		}
+	}
+	return true
 }
 
 // ---- EX-ORDER: abstract evaluation over the finite domain of orderings / truth values
@@ -1388,15 +1457,23 @@ func ruleEXSetIncl(p *Prog, r *Reporter) {
 
 // ---- EX-ARITY: path enumeration through one iteration of Evaluate
 
-func ruleEXArity(p *Prog, r *Reporter) {
+func ruleEXArity(p *Prog, r *Reporter) { arityCheck(p, r, "Evaluate") }
+
+// rulePRArity: the printer of expressions is the same stack machine as Evaluate, over strings.
+func rulePRArity(p *Prog, r *Reporter) { arityCheck(p, r, "Print") }
+
+// arityCheck enumerates every way through one step of the expression stack machine `method`
+// (Evaluate: operators applied with Eval; Print: operators applied with UnaryOp.Print / BinaryOp.Print).
+func arityCheck(p *Prog, r *Reporter, method string) {
 	globalP = p
+	printMode := method == "Print"
 	expr := p.NamedType("datalog", "Expression")
 	var ev *ssa.Function
 	if expr != nil {
-		ev = p.method(expr, "Evaluate")
+		ev = p.method(expr, method)
 	}
 	if ev == nil {
-		r.Dunno("?", "datalog.Expression", "Evaluate", "not found")
+		r.Dunno("?", "datalog.Expression", method, "not found")
 		return
 	}
 	name := p.FuncName(ev)
@@ -1507,7 +1584,13 @@ func ruleEXArity(p *Prog, r *Reporter) {
 					okFlow, why = false, "the binary operands are not (second popped, first popped) = (left, right)"
 				}
 				if okFlow {
-					res := extractOf(e, 0)
+					var res []ssa.Value
+					for _, x := range extractOf(e, 0) {
+						res = append(res, x)
+					}
+					if printMode {
+						res = []ssa.Value{e} // Print returns the text itself, not a (value, error) pair
+					}
 					if len(res) == 0 || unwrap(resolve(unwrap(pushes[0].Call.Args[len(pushes[0].Call.Args)-1]))) != res[0] {
 						okFlow, why = false, "the pushed value is not the operator's result"
 					}
@@ -1532,7 +1615,10 @@ func ruleEXArity(p *Prog, r *Reporter) {
 			if c, ok := in.(*ssa.Call); ok {
 				if f := c.Call.StaticCallee(); f != nil && p.pkgShort(f) == "datalog" && (f.Name() == "Pop" || f.Name() == "Push") {
 					steps = append(steps[:len(steps):len(steps)], step{c, f.Name()})
-				} else if c.Call.IsInvoke() && c.Call.Method.Name() == "Eval" {
+				} else if !printMode && c.Call.IsInvoke() && c.Call.Method.Name() == "Eval" {
+					steps = append(steps[:len(steps):len(steps)], step{c, "Eval"})
+				} else if f := c.Call.StaticCallee(); printMode && f != nil && f.Name() == "Print" && f.Signature.Recv() != nil &&
+					(isRepoNamed(f.Signature.Recv().Type(), "datalog", "UnaryOp") || isRepoNamed(f.Signature.Recv().Type(), "datalog", "BinaryOp")) {
 					steps = append(steps[:len(steps):len(steps)], step{c, "Eval"})
 				}
 			}
